@@ -1504,6 +1504,21 @@ pub fn run(args: &Args) {
 	// G. every route × every header variant, static sources, option interplay; H. concurrency
 	routes_section(&mut out, args, &bin, &dir, &defs);
 	concurrent_section(&mut out, &servers[0]);
+	for n in [
+		"checklist 1 (thresholds): z 30/31/32/255/256, x/y 2^z-1, 2^z, 2^32-1, 2^32; 2/3/4+ path parts; stored sizes around 64 KiB and 1 MiB, 1.2 and 2 MiB; 0/1-byte tiles; the four incompressible MIME strings (png/jpg/webp/avif vs svg and 5 others)",
+		"checklist 2 (faults): directory tile deleted / replaced by a directory, tar and versatiles truncated after start-up (404), stored bytes undecodable under the declared compression (500 or stored bytes; was a dropped connection, fixed e9b017ef)",
+		"checklist 3 (payloads): 0 bytes, 1 byte, payload that is a gzip stream / starts with the gzip magic, > 1 MiB incompressible, undecodable, mislabelled (decodable under another codec)",
+		"checklist 4 (options): --fast, --flip-y, --swap-xy, --override-input-compression (alone and pairwise), --disable-api, one/two static sources in both orders, url prefixes for static sources, the same container under several ids, ids that are prefixes of each other, colliding ids (must refuse to start)",
+		"checklist 5 (state): every route request is sent twice and must be answered identically; thousands of repeated lookups on long-lived instances (warm reader caches); same source mounted twice",
+		"checklist 6 (order): 8 client threads x 40 requests on one instance (per-source async mutex)",
+		"checklist 7 (requests): 18 header variants (absent, empty, *, single, lists, q-values incl. q=0, upper/mixed case, identity, unknown tokens containing gzip/br, repeated header line) on tiles, tiles.json, meta.json, static folder, static tar, /status, /tiles/index.json; path forms in the sampled tile requests",
+		"checklist 8 (coordinates): zoom 0, 30, 31 origin and far corner, level borders with flip/swap",
+		"checklist 9 (foreign encoders): tiles encoded by flate2/brotli directly; versatiles and pmtiles sources written by indep_formats with shuffled/shared/leaf layouts",
+		"checklist 10 (two paths): best vs --fast (both must decode to the stored payload), precompressed .br/.gz vs plain vs on-the-fly for static files, tiles.json identical across modes and headers",
+		"checklist 11 (fallbacks): index.html for directory URLs (folder and tar alias), .br/.gz-only files requested by clients that do not accept them, second static source when the first does not know the path, static fallback for /tiles/<id>/ without a path",
+	] {
+		out.notes.push(n.into());
+	}
 	// the servers must have survived everything
 	let mut servers = servers;
 	for s in servers.iter_mut() {
